@@ -476,7 +476,7 @@ def main():
         c.finish()
     exe = common.build_ocaml(PID)
     quick = c.tier == "quick"
-    ntrees = 420 if quick else 12000
+    ntrees = 360 if quick else 12000
     nsamples = 10 if quick else 40
     ndelayed = 40 if quick else 600
     rng = c.rng
